@@ -62,6 +62,98 @@ func (d *memDB) dump() [][2]string {
 var maxDumpOps = 30
 var dumpsLeft = 1 << 30
 
+// forceDump: the next history records its store whatever its size (scripted full sub-tree cases)
+var forceDump = false
+
+// noteRec documents behaviour OUTSIDE the declared assumptions of the property (same layout on re-opening, 32-byte values);
+// never a violation, the orchestration records it in the evidence
+type noteRec struct {
+	K       string `json:"k"` // "note"
+	What    string `json:"what"`
+	UpdErr  string `json:"upderr"`
+	UpdPan  string `json:"updpanic"`
+	PrvErr  string `json:"proveerr"`
+	PrvPan  string `json:"provepanic"`
+	Verdict int    `json:"verdict"` // 1 true, 0 false, 2 error, -1 not run
+}
+
+// layoutNote: a trie built with SetSubtreeHeight(4) and re-opened with NewTrie(root, kl) alone (default height 8)
+func layoutNote(r *hx.Rng) noteRec {
+	rec := noteRec{K: "note", What: "built with sub-tree height 4, re-opened with NewTrie only (height 8)", Verdict: -1}
+	db := newMem()
+	t := smt.NewTrie(nil, 32)
+	t.SetSubtreeHeight(4)
+	ks, vs := [][]byte{}, [][]byte{}
+	for i := 0; i < 6; i++ {
+		k := r.Bytes(32)
+		k[0] = byte(0x10 + i) // same first nibble: a lower 4-bit sub-tree exists
+		ks = append(ks, k)
+		vs = append(vs, value(r))
+	}
+	root, err := t.Update(db, ks, vs)
+	if err != nil {
+		rec.UpdErr = "build: " + err.Error()
+		return rec
+	}
+	t2 := smt.NewTrie(root, 32) // no SetSubtreeHeight
+	var uerr error
+	nk := r.Bytes(32)
+	nk[0] = 0x12 // below the stub that the 8-bit reading takes for a bottom node at depth 4
+	rec.UpdPan = try(func() { _, uerr = t2.Update(newMemCopy(db), [][]byte{nk}, [][]byte{value(r)}) })
+	if uerr != nil {
+		rec.UpdErr = uerr.Error()
+	}
+	t3 := smt.NewTrie(root, 32)
+	var proof *smt.Proof
+	var perr error
+	rec.PrvPan = try(func() { proof, perr = t3.Prove(db, [][]byte{ks[0]}) })
+	if perr != nil {
+		rec.PrvErr = perr.Error()
+	}
+	if proof != nil && rec.PrvPan == "" && perr == nil {
+		var ok bool
+		var verr error
+		if p := try(func() { ok, verr = smt.Verify([][]byte{ks[0]}, proof, root, 32) }); p != "" {
+			rec.Verdict = 2
+		} else {
+			rec.Verdict = verdict(ok, verr)
+			if ok && (len(proof.Queries) != 1 || !bytes.Equal(proof.Queries[0].Key, ks[0]) || !bytes.Equal(proof.Queries[0].Value, vs[0])) {
+				rec.Verdict = 0 // verifies but does not show the stored value
+			}
+		}
+	}
+	return rec
+}
+
+// valueLenNote: a value that is not 32 bytes long is accepted by Update; the stored sub-tree cannot be decoded again
+func valueLenNote(r *hx.Rng) noteRec {
+	rec := noteRec{K: "note", What: "value of 5 bytes stored, trie re-opened and updated", Verdict: -1}
+	db := newMem()
+	t := smt.NewTrie(nil, 32)
+	root, err := t.Update(db, [][]byte{r.Bytes(32), r.Bytes(32)}, [][]byte{r.Bytes(5), value(r)})
+	if err != nil {
+		rec.UpdErr = "build: " + err.Error()
+		return rec
+	}
+	t2 := smt.NewTrie(root, 32)
+	var uerr error
+	rec.UpdPan = try(func() { _, uerr = t2.Update(db, [][]byte{r.Bytes(32)}, [][]byte{value(r)}) })
+	if uerr != nil {
+		rec.UpdErr = uerr.Error()
+	}
+	return rec
+}
+
+func newMemCopy(d *memDB) *memDB {
+	c := newMem()
+	d.mu.Lock()
+	for k, v := range d.m {
+		c.m[k] = append([]byte{}, v...)
+	}
+	d.mu.Unlock()
+	return c
+}
+
 type wop [2]string // key hex, value hex ("" = delete)
 
 type rootRec struct {
@@ -330,10 +422,11 @@ func runRootKL(kl, klArg int, gen string, batches [][]wop, reopen []bool, sh int
 	for _, b := range batches {
 		nops += len(b)
 	}
-	doDump := nops <= maxDumpOps && len(batches) > 0 && dumpsLeft > 0
-	if doDump {
+	doDump := (nops <= maxDumpOps && len(batches) > 0 && dumpsLeft > 0) || forceDump
+	if doDump && !forceDump {
 		dumpsLeft--
 	}
+	forceDump = false
 	var root []byte
 	for i, b := range batches {
 		if reopen[i] {
@@ -933,6 +1026,29 @@ func main() {
 		qk := [][]byte{unhex(pick()), unhex(pick()), flipBit(unhex(pick()), kl*8-1)}
 		o.Put(runProofSH(r, kl, "full-subtree", [][]wop{b1, b2}, qk, true, 4*((i+1)%2)))
 	}
+	// FULL sub-trees with store dumps (length byte 255 of the sub-tree encoding): 1-byte keys = the root sub-tree holds 256
+	// leaves; 2-byte keys under one first byte = a full lower sub-tree behind a stub; then delete / overwrite / new branch
+	for _, kl := range []int{1, 2} {
+		b1 := []wop{}
+		for x := 0; x < 256; x++ {
+			k := make([]byte, kl)
+			if kl == 2 {
+				k[0] = 0xab
+			}
+			k[kl-1] = byte(x)
+			b1 = append(b1, wop{hx2(k), hx2(value(r))})
+		}
+		other := make([]byte, kl)
+		other[0] = 0x17
+		b2 := []wop{{b1[200][0], ""}, {b1[3][0], hx2(value(r))}}
+		if kl == 2 {
+			b2 = append(b2, wop{hx2(other), hx2(value(r))})
+		}
+		forceDump = true
+		o.Put(runRoot(kl, "full-dump", [][]wop{b1, b2}, []bool{false, true}, 0))
+	}
+	o.Put(layoutNote(r))
+	o.Put(valueLenNote(r))
 	// keyLength 0 = DefaultKeyLength: histories with 32-byte keys on tries created and re-opened with NewTrie(x, 0)
 	for i := 0; i < 3; i++ {
 		g := newKeygen(r, 32, modes[r.Intn(len(modes))])
